@@ -222,6 +222,17 @@ class TextAttr:
 
 
 @dataclass
+class TextOnly:
+    """a subset of TextAttr's fields: for the keys {value, a} both classes match and the number of EXTRA fields
+    decides, for {value, a, b} only TextAttr does"""
+    class Meta:
+        namespace = "urn:m"
+
+    value: str = field(default="", metadata={"type": "Text"})
+    a: Optional[int] = field(default=None, metadata={"type": "Attribute"})
+
+
+@dataclass
 class Shuffled:
     """declaration order differs from the order in which XmlMeta groups its vars"""
     class Meta:
@@ -263,7 +274,12 @@ def meta_markers() -> sched.MarkerSet:
             if name == "__init__" or not inspect.isfunction(fn):
                 continue
             ms.append(sched.Marker(fn, [(r"self\b", "v_access")]))
-    ms.append(sched.Marker(XmlContext.build, [(r"if clazz not in self\.cache", "b_check"),
-                                              (r"self\.cache\[clazz\]\s*=", "b_store"),
-                                              (r"return self\.cache\[clazz\]", "b_read")]))
+    # ... and of every method of the context itself (scratch values kept on the shared context between two steps
+    # of one call are shared state as well)
+    for name, member in vars(XmlContext).items():
+        fn = member.fget if isinstance(member, property) else member
+        # build_xsi_cache walks every class of the interpreter: it has its own markers in the main phase
+        if name in ("__init__", "get_builder", "get_subclasses", "is_binding_model", "build_xsi_cache") or not inspect.isfunction(fn):
+            continue
+        ms.append(sched.Marker(fn, [(r"self\b", "c_access")]))
     return sched.MarkerSet(ms)
